@@ -299,9 +299,21 @@ def sequence_body(ctx, case):
         obj, port, board = em.new_connected(Board("ebb3", lenient=True))
     done = []
     for name, args in steps:
-        expected = table[name][1](*args)
         port.begin_call()
         before = len(port.writes)
+        if name == "motors_enable":
+            # validity predicate (the preparatory commands depend on the board's state): the last command is the
+            # clamped EM, everything before it is one of CU,50,0 / QE / EM,c2,c2 - and nothing else
+            call_sut(obj.motors_enable, *args)
+            got = texts(port.writes[before:])
+            c1, c2 = clamp(args[0]), clamp(args[1])
+            allowed = {"CU,50,0\r", "QE\r", "EM,%d,%d\r" % (c2, c2)}
+            if not got or got[-1] != "EM,%d,%d\r" % (c1, c2) or any(g not in allowed for g in got[:-1]):
+                ctx.fail("after %r, EBBMotionWrap.motors_enable%r wrote %r; expected 'EM,%d,%d' last, preceded "
+                         "only by commands from %r" % (done, tuple(args), got, c1, c2, sorted(allowed)), case)
+            done.append([name, args])
+            continue
+        expected = table[name][1](*args)
         if layer == "legacy":
             call_sut(getattr(ebb_motion, name), port, *args)
         else:
@@ -326,6 +338,8 @@ def sequences(draw):
     layer = draw(st.sampled_from(["legacy", "ebb3"]))
     table = LEGACY if layer == "legacy" else EBB3
     names = sorted(n for n in table if n not in SEQ_SKIP)
+    if layer == "ebb3":
+        names = names + ["motors_enable", "motors_enable"]
     focus = draw(st.lists(st.sampled_from(names), min_size=1, max_size=4))
     steps = []
     for _ in range(draw(st.integers(2, 12))):
@@ -333,6 +347,10 @@ def sequences(draw):
         previous = [a for n, a in steps if n == name]
         if previous and draw(st.integers(0, 2)) > 0:
             args = list(draw(st.sampled_from(previous)))
+        elif name == "motors_enable":
+            args = [draw(st.one_of(st.integers(0, 5), RES)), draw(st.one_of(st.integers(0, 5), RES))]
+            if draw(st.booleans()):
+                args[draw(st.integers(0, 1))] = 0
         else:
             args = [draw(strategy) for strategy in table[name][0]]
         steps.append([name, args])
@@ -371,6 +389,10 @@ def sequence_grid():
                 continue                     # helpers with ad-hoc strategies are covered by the generated part
             a, b = samples
             yield {"layer": layer, "steps": [[name, a], [name, a], [name, b], [name, a], [name, a]]}
+    requests = [(0, 0), (0, 2), (2, 0), (2, 2), (1, 3), (0, 5), (5, 0), (3, 3)]
+    for first, second in itertools.product(requests, repeat=2):
+        yield {"layer": "ebb3", "steps": [["motors_enable", list(first)], ["motors_enable", list(second)],
+                                         ["motors_disable", []], ["motors_enable", list(second)]]}
 
 
 @st.composite
